@@ -70,7 +70,7 @@ type Case struct {
 	Steps []Step `json:"steps"`
 }
 
-var kinds = []string{"direct", "host", "catchall", "ignore-add", "ignore-remove", "redirect", "notfound", "nomethod", "options", "lookup", "lookup-tsr", "host-infix-tsr", "double-infix-tsr", "infix", "hijack", "infix-empty-seg", "double-infix-empty-seg", "nomethod-host", "infix-sib", "infix-sib", "infix-sib-miss", "infix-sib-miss", "host-static", "host-static", "redirect-helper", "redirect-helper"}
+var kinds = []string{"direct", "host", "catchall", "ignore-add", "ignore-remove", "redirect", "notfound", "nomethod", "options", "lookup", "lookup-tsr", "host-infix-tsr", "double-infix-tsr", "infix", "hijack", "infix-empty-seg", "double-infix-empty-seg", "nomethod-host", "infix-sib", "infix-sib", "infix-sib-miss", "infix-sib-miss", "host-static", "host-static", "redirect-helper", "redirect-helper", "wrapped", "wrapped"}
 
 type expKey struct{}
 
@@ -102,6 +102,14 @@ type harness struct {
 	clones         []savedClone
 	extra          []string
 	cloneWithCount int
+	wrapped        []savedCtx
+}
+
+// savedCtx is the request context a net/http handler adapted with fox.WrapF received: the parameters it carries are that
+// request's, for as long as somebody holds on to it (a goroutine started by the handler, a timeout handler).
+type savedCtx struct {
+	ctx context.Context
+	tok string
 }
 
 type savedClone struct {
@@ -386,6 +394,25 @@ func newHarness() (*harness, error) {
 			h.fail("redirecting handler [token %s]: after Redirect(302) the writer reports status=%d written=%v", e.tok, w.Status(), w.Written())
 		}
 	})
+	// a net/http handler behind fox.WrapF: it reads its parameters from the request context, and keeps that context
+	f.MustHandle("GET", "/wr/{tok}/{tok2}", fox.WrapF(func(w http.ResponseWriter, r *http.Request) {
+		e, _ := r.Context().Value(expKey{}).(*exp)
+		if e == nil {
+			h.fail("wrapped handler: the request is not one of ours: %s", r.URL)
+			return
+		}
+		for _, p := range fox.ParamsFromContext(r.Context()) {
+			if p.Value != e.tok {
+				h.fail("wrapped handler [token %s]: ParamsFromContext yields %s=%q", e.tok, p.Key, p.Value)
+			}
+		}
+		h.mu.Lock()
+		h.wrapped = append(h.wrapped, savedCtx{r.Context(), e.tok})
+		h.mu.Unlock()
+		w.Header().Set("X-Resp", e.tok)
+		w.WriteHeader(e.status)
+		_, _ = w.Write([]byte(strings.Repeat("b", e.size)))
+	}))
 	f.MustHandle("POST", "/m/{tok}", rh)
 	f.MustHandle("PUT", "/m/{tok}", rh)
 	// an infix catch-all behind a static segment that competes with a parameter: a direct match through it leaves untried
@@ -425,6 +452,8 @@ func buildStep(s Step, tok string, n int) (*http.Request, *exp) {
 		path, e.pattern, e.params = "/dd/"+tok+"/m/"+tok+"/end", "/dd/*{tok}/m/*{tok2}/end/", []string{"tok", "tok2"}
 	case "infix":
 		path, e.pattern, e.params = "/in/"+tok+"/x/"+tok, "/in/*{tok}/x/{tok2}", []string{"tok", "tok2"}
+	case "wrapped":
+		path, e.pattern, e.params = "/wr/"+tok+"/"+tok, "/wr/{tok}/{tok2}", []string{"tok", "tok2"}
 	case "redirect-helper":
 		path, e.pattern, e.params, e.status, e.size = "/rh/"+tok, "/rh/{tok}", []string{"tok"}, http.StatusFound, -1
 	case "hijack":
@@ -540,6 +569,17 @@ func (w *hijackable) Hijack() (net.Conn, *bufio.ReadWriter, error) {
 
 // recheckClones inspects every stored clone after all later requests have run.
 func (h *harness) recheckClones() {
+	for _, sw := range h.wrapped {
+		ps := fox.ParamsFromContext(sw.ctx)
+		if len(ps) != 2 {
+			h.fail("request context kept by the wrapped handler of token %s, read after later requests: ParamsFromContext yields %v, want tok and tok2", sw.tok, ps)
+		}
+		for _, p := range ps {
+			if p.Value != sw.tok {
+				h.fail("request context kept by the wrapped handler of token %s, read after later requests: ParamsFromContext yields %s=%q", sw.tok, p.Key, p.Value)
+			}
+		}
+	}
 	for _, sc := range h.clones {
 		cl, e := sc.c, sc.e
 		pre := fmt.Sprintf("Clone taken %s writing in request with token %s (%s), inspected after later requests", sc.when, e.tok, e.pattern)
